@@ -69,6 +69,9 @@ func (f *form) key() string {
 	if f.K == "switch" || f.K == "sswitch" {
 		cl = fmt.Sprint(f.Cl)
 	}
+	if f.K == "nest" || f.K == "mvpair" || f.K == "mvcall" {
+		return strings.Join([]string{f.K, f.S, f.D, f.T, f.M, "T" + strconv.Itoa(f.J)}, "/")
+	}
 	if f.O != "" {
 		return strings.Join([]string{f.K, f.S, f.D, f.T, f.M, cl, "T" + strconv.Itoa(f.J), "o" + f.O}, "/")
 	}
@@ -183,8 +186,8 @@ func fieldSel(base string, p []int) string {
 }
 
 var faces = map[string][]string{
-	"M": {"M", "String", "Len", "Less", "Swap"},
-	"N": {"N", "Error", "Write"},
+	"M": {"M", "String", "Len", "Less", "Swap", "Acc"},
+	"N": {"N", "Error", "Write", "Bcc"},
 }
 
 func goType(t string) string {
@@ -344,6 +347,32 @@ func (f *form) body(id string) string {
 		return pre + "lg = \"\"; mut(&v); fmt.Fprint(" + operand(f.D) + ", \"x\"); " + out(`"ok"`)
 	case "sprinti":
 		return pre + "lg = \"\"; mut(&v); " + capture("i", f.S, f.D) + "; aux = fmt.Sprint(i); " + out(`"ok"`)
+	case "nest", "mvpair", "mvcall":
+		// two receivers of one interface method: v (mutated) held by i, a fresh w (of type Tj) held by j
+		mk, stw := "mk()", "st(&w)"
+		if f.J > 1 {
+			mk, stw = fmt.Sprintf("mk%d()", f.J), fmt.Sprintf("st%d(&w)", f.J)
+		}
+		it := goType(f.S)
+		hold := func(name, obj, d string) string {
+			if d == "ptr" {
+				return "var " + name + " " + it + " = &" + obj
+			}
+			return "var " + name + " " + it + " = " + obj
+		}
+		head := pre + "lg = \"\"; mut(&v); w := " + mk + "; " + hold("i", "v", f.D) + "; " + hold("j", "w", f.T) + "; "
+		face := m
+		switch f.K {
+		case "nest":
+			face = "Acc"
+			if m == "N" {
+				face = "Bcc"
+			}
+			return head + "r := i." + face + "(j." + face + "(1)); aux = strconv.Itoa(r) + \":\" + " + stw + "; " + out(`"ok"`)
+		case "mvpair":
+			return head + "h := i." + face + "; k := j." + face + "; h(); k(); aux = " + stw + "; " + out(`"ok"`)
+		}
+		return head + "h := i." + face + "; j." + face + "(); h(); aux = " + stw + "; " + out(`"ok"`)
 	}
 	return "UNKNOWN_FORM_KIND_" + f.K
 }
@@ -379,6 +408,9 @@ func (f *form) expected(id string) string {
 		aux = joinInts(f.Aux)
 		if f.probedType() == "PT1" {
 			aux = "true:" + aux
+		}
+		if f.K == "nest" {
+			aux = "3:" + aux // i.Acc(j.Acc(1)) = (1 + 1) + 1
 		}
 	}
 	return id + "|" + f.R + "|" + lg.String() + "|" + aux + "|" + joinInts(f.Fin)
@@ -422,7 +454,8 @@ func render(h *hier, forms []form, sel []int) *program {
 	w("package main\n\nimport (\n\t\"fmt\"\n\t\"io\"\n\t\"sort\"\n\t\"strconv\"\n)\n\n")
 	w("var _ io.Writer\nvar _ sort.Interface\nvar _ = strconv.Itoa\n\nvar lg string\n\n")
 	w("func note(tag string, c int) { lg += tag + \":\" + strconv.Itoa(c) + \";\" }\n\n")
-	w("type IM interface{ M() }\ntype IN interface{ N() }\ntype IMN interface {\n\tIM\n\tN()\n}\n\n")
+	w("type IM interface{ M() }\ntype IN interface{ N() }\ntype IMN interface {\n\tIM\n\tN()\n}\n")
+	w("type IA interface{ Acc(int) int }\ntype IB interface{ Bcc(int) int }\n\n")
 	for i := 0; i < h.N; i++ {
 		w(fmt.Sprintf("type T%d struct {\n\tc%d int\n", i+1, i+1))
 		for j := 0; j < h.N; j++ {
@@ -461,6 +494,8 @@ func render(h *hier, forms []form, sel []int) *program {
 					w(fmt.Sprintf("func %s Swap(i, j int) { %s }\n", rc, body))
 				case "Write":
 					w(fmt.Sprintf("func %s Write(b []byte) (int, error) { %s; return len(b), nil }\n", rc, body))
+				case "Acc", "Bcc":
+					w(fmt.Sprintf("func %s %s(x int) int { %s; return x + 1 }\n", rc, face, body))
 				}
 			}
 		}
@@ -492,6 +527,17 @@ func render(h *hier, forms []form, sel []int) *program {
 			pos[fmt.Sprint(p)] = k + 1
 		}
 		w(fmt.Sprintf("func mk%d() T%d { return %s }\n\n", j+1, j+1, lit([]int{j})))
+	}
+	for j := 1; j < h.N; j++ {
+		// stj(): the counters of a Tj object along the paths below Tj
+		w(fmt.Sprintf("func st%d(v *T%d) string {\n\treturn ", j+1, j+1))
+		for k, p := range h.pathsFrom(j) {
+			if k > 0 {
+				w(" + \",\" + ")
+			}
+			w("strconv.Itoa(" + fieldSel("v", p) + ")")
+		}
+		w("\n}\n\n")
 	}
 	w("func st(v *T1) string {\n\treturn ")
 	for k, p := range paths {
